@@ -69,6 +69,7 @@ type Contract struct {
 	MayPanic    bool
 	NoSafety    bool
 	SafetyProps []string
+	SafetyKinds []string
 	Params      []string // optional explicit parameter names (externals)
 	Behavior    string   // name of the behaviour (case) this contract describes; "" for a plain contract
 	Target      string   // function key (Key is Target#Behavior for behaviours)
@@ -116,7 +117,7 @@ func NewSpec() *Spec {
 var labelRe = regexp.MustCompile(`^\[([^\]]*)\]\s*`)
 var clauseKeywords = map[string]bool{"func": true, "spec": true, "ghost": true, "axiom": true, "import": true, "requires": true,
 	"ensures": true, "loop": true, "assert@call": true, "prologue": true, "epilogue": true, "modifies": true, "pure": true,
-	"assumed": true, "trusted": true, "maypanic": true, "lemma": true, "ground": true, "roundtrip": true, "jsoncompat": true, "tables": true, "nosafety": true, "params": true, "safety": true, "fvtargets": true}
+	"assumed": true, "trusted": true, "maypanic": true, "lemma": true, "ground": true, "roundtrip": true, "jsoncompat": true, "tables": true, "nosafety": true, "safetykinds": true, "params": true, "safety": true, "fvtargets": true}
 
 func splitLabels(rest string) ([]string, string) {
 	if m := labelRe.FindStringSubmatch(rest); m != nil {
@@ -448,6 +449,13 @@ func (s *Spec) ParseSpecFile(path, pkgPath string) error {
 				for _, m := range strings.Split(rest, ",") {
 					if m = strings.TrimSpace(m); m != "" {
 						cur.SafetyProps = append(cur.SafetyProps, m)
+					}
+				}
+			case "safetykinds":
+				// only these kinds of runtime faults are obliged (substrings of the obligation text, e.g. "type assertion")
+				for _, m := range strings.Split(rest, ",") {
+					if m = strings.TrimSpace(m); m != "" {
+						cur.SafetyKinds = append(cur.SafetyKinds, m)
 					}
 				}
 			case "params":
